@@ -208,6 +208,49 @@ def gen_cases(tier, rng):
                         continue
                     cases.append(frame_case(std_frame(n, cnt % 4),
                                             [idx_step(idx, ddf=ddf, idtype=["int64", "int32", "uint32"][cnt % 3])], n=cnt))
+    # ---- fields: every filter / a family of index arrays x backing x write mode (fresh, in place, into a target that is
+    #      unwritten / written-empty / of the result's length / longer) x entry point, for every field type.  The source
+    #      is read back after every call ("source untouched"), the target's previous content must be replaced.
+    fsrc = {"s": [["ab", "c", "\u00e9"], ["", "ab", "c"]], "n": [[3, -1, 2]], "f": [[b"x", b"", b"yxx"]], "c": [[2, 0, 1]],
+            "t": [[1, 0, 3]]}
+    mk = {"s": lambda v: col_indexed("x", v), "n": lambda v: col_numeric("x", v, "int32"), "f": lambda v: col_fixed("x", v),
+          "c": lambda v: col_cat("x", v), "t": lambda v: col_ts("x", v)}
+    for kind, srcs in fsrc.items():
+        for vals in srcs:
+            n = len(vals)
+            ops_ = [("filter", list(b)) for b in itertools.product([0, 1], repeat=n)] + \
+                   [("index", list(i)) for i in ([], [2, 1, 0], [0, 0, 2], [1], [-1, 0])]
+            for what, arg in ops_:
+                out_n = sum(arg) if what == "filter" else len(arg)
+                modes = [("fresh", None, None)] + [("inplace", None, None)]
+                for tn in ("unwritten", "written-empty", out_n, out_n + 1):
+                    for tb in ("h5", "mem"):
+                        modes.append(("target", tn, tb))
+                for backing in ("h5", "mem"):
+                    for mode, tn, tb in modes:
+                        for entry in (("field",) if mode == "inplace" else ("field", "session")):
+                            cnt += 1
+                            if tier == "quick" and kind != "s" and cnt % 3:
+                                continue
+                            c = {"op": "c09_field", "what": what, "src": mk[kind](vals), "backing": backing,
+                                 "inplace": mode == "inplace", "entry": entry, "target": None, "_n": cnt}
+                            if what == "filter":
+                                if cnt % 4 == 0:
+                                    c.update(fkind="num", flt=[b * (2 if cnt % 8 else -1) for b in arg], fdtype="int64")
+                                else:
+                                    c.update(fkind="bool", flt=arg, fdtype="bool")
+                            else:
+                                c.update(idx=arg, idtype="int64" if cnt % 2 else "int32")
+                            if mode == "target":
+                                if tn in ("unwritten", "written-empty"):
+                                    t = mk[kind](vals[:0])
+                                    if kind == "s" and tn == "written-empty":
+                                        t["indices"] = [0]
+                                else:
+                                    t = mk[kind]((vals * 3)[:tn])
+                                c["target"] = t
+                                c["tbacking"] = tb
+                            cases.append(c)
     # ---- kernels
     for n in range(4):
         for lens in itertools.product([0, 1, 2], repeat=n):
@@ -519,7 +562,7 @@ def np_data(e, col):
 def fill(e, f, col):
     if col["ftype"] == "indexedstring":
         strs = entries(col)
-        if strs:
+        if strs or col.get("indices") == [0]:       # indices == [0]: a field to which the empty sequence WAS written
             f.data.write(strs)
     else:
         d = np_data(e, col)
